@@ -1,4 +1,7 @@
-"""C18 JSON delta and snapshot streams are well-formed and exact - chunking state machine (M engine, one inductive step)."""
+"""C18 JSON delta and snapshot streams are well-formed and exact - chunking state machine (M engine: one inductive
+step over the `first` flag, plus a byte-level bounded run of the whole stream)."""
+import ast
+import json
 import re
 
 import z3
@@ -227,11 +230,26 @@ def run(res, tier):
     E = mprop.engine(res)
     res.extra.setdefault("source_files_sha256", {}).update(mprop.source_hashes([F]))
     visits = 3 if tier == "quick" else 4
-    n = check_delta_stream(res, E, visits)
-    n += check_snapshot_stream(res, E, visits)
+    n = 0
+    if "first" in mir.struct_fields("DeltaStream", F):
+        n += check_delta_stream(res, E, visits)
+        n += check_snapshot_stream(res, E, visits)
+    else:
+        res.notes.append("DeltaStream has no `first` field: the flag-based inductive step does not apply to this "
+                         "implementation; the byte-level run below decides the property")
+    mprop.finish_engine(res, E)
+    for kind in ("delta", "snapshot"):
+        E = mprop.engine(res)
+        n += stream_run(res, E, kind, 2 if tier == "quick" else 3)
     res.distinct += n
     if n < 20:
         res.inconclusive.append("vacuity: only %d stream paths" % n)
+    res.bounds.append("byte-level run: DeltaStream / SnapshotStream from new() through successive next() calls until None, for "
+                      "change sets of 0..%d items with symbolic actions; the buffer is abstracted to (length, last byte); "
+                      "every item's text has a symbolic length up to 70000 bytes (header values up to 64 bytes each), so the 64000-byte chunk limit "
+                      "can fall after any piece; checked per path: order of header, items, separator, footer; a comma "
+                      "exactly before every item that is not the first of its list (across chunk boundaries); items are "
+                      "exactly the change set's, by action, in order" % (2 if tier == "quick" else 3))
     res.bounds.append("ONE call of next() from an arbitrary stream state satisfying the representation invariant (which every "
                       "returning path is shown to re-establish): covers any number of items and chunks by induction; inside "
                       "one call the item loop is unrolled to %d items; `vec.len() > 64000` is a free boolean at every test" % (visits - 1))
@@ -239,6 +257,418 @@ def run(res, tier):
                         "Vec::len() is arbitrary at each test: chunk boundaries fall anywhere"]
     res.outside += ["the JSON text of the individual pieces (append_header / append_payload format strings run through "
                     "core::fmt: out of reach for CBMC within the caps, see C22's measurements) and the header's session/serial values"]
+    res.assumptions += ["byte-level run: items are route origins (PayloadRef::Origin); format placeholders write 0..70000 bytes "
+                        "of unknown content; Vec<u8> / Option<Vec<u8>> operations are buffer models (new, take, "
+                        "unwrap_or_default, len, push, extend_from_slice, write_fmt, ends_with, into Bytes)"]
     res.rule = ("one case = one feasible path of next(); the sequence of emitted pieces, the `first` (comma) flag of every "
                 "item, the item/iterator correspondence and the post-state are checked with z3 'must' queries")
     mprop.finish_engine(res, E)
+
+
+# ---------------------------------------------------------------------------------------------------------------
+# byte-level bounded run: new() -> next()* -> None
+
+def _rust_bytes(lit):
+    t = lit.strip()
+    if t.startswith("const "):
+        t = t[6:]
+    is_b = t.startswith("b")
+    body = t[2:-1] if is_b else t[1:-1]
+    body = re.sub(r"\\u\{([0-9a-fA-F]+)\}", lambda m: chr(int(m.group(1), 16)), body)
+    if is_b:
+        return ast.literal_eval('b"' + body + '"')
+    return ast.literal_eval('"' + body + '"').encode("utf-8")
+
+
+def _decode_template(raw):
+    out = []
+    i = 0
+    while True:
+        n = raw[i]
+        i += 1
+        if n == 0:
+            break
+        if n < 0x80:
+            out.append(("lit", raw[i:i + n]))
+            i += n
+        elif n == 0x80:
+            ln = int.from_bytes(raw[i:i + 2], "little")
+            out.append(("lit", raw[i + 2:i + 2 + ln]))
+            i += 2 + ln
+        else:
+            for bit, size in ((1, 4), (2, 2), (4, 2), (8, 2)):
+                if n & bit:
+                    i += size
+            out.append(("arg",))
+    return out
+
+
+class Tok:
+    """One piece of output: kind in header/item/separator/footer/chunk/write."""
+    def __init__(self, kind, **kw):
+        self.kind = kind
+        self.__dict__.update(kw)
+
+    def __repr__(self):
+        return "%s%s" % (self.kind, {k: v for k, v in self.__dict__.items() if k not in ("kind",)})
+
+
+def stream_run(res, E, kind, N):
+    ty = "DeltaStream" if kind == "delta" else "SnapshotStream"
+    new_body = E.prog.find(F, ty, "new")
+    next_body = E.prog.find(F, ty, "next", trait="Iterator")
+    res.functions.append("http::delta::%s::new + next()* with the append_* helpers inlined (MIR, byte-level run)" % ty)
+    n_items = z3.Int(kind + "_n_items")
+    E.solver.add(n_items >= 0, n_items <= N)
+    act = [z3.Int("%s_action_%d" % (kind, i)) for i in range(N)]
+    for a in act:
+        E.solver.add(z3.Or(a == 0, a == 1))
+    payloads = [mir.Opq("PayloadRef", "item%d" % i) for i in range(N)]
+    LIM = 70000
+
+    def buf(ln, last):
+        return {("blen",): ln, ("blast",): last}
+
+    def tok(E_, st, frame, t):
+        where = (frame["body"].name, st.trace[-1][1] if st.trace else "")
+        st.events.append(mir.Event("TOK", [t], None, where, "tok"))
+
+    def load_buf(E_, st, v):
+        r = v.get(())
+        if isinstance(r, mir.Ref):
+            cur = E_.load(st, r.loc)
+            return (cur, r.loc) if ("blen",) in cur else (None, None)
+        return (v, None) if ("blen",) in v else (None, None)
+
+    def append(E_, st, frame, loc, cur, nbytes, last, first, what):
+        new = dict(cur)
+        new[("blen",)] = cur[("blen",)] + nbytes
+        if last is not None:
+            new[("blast",)] = last
+        E_.store(st, loc, new)
+        tok(E_, st, frame, Tok("write", first=first, what=what))
+
+    def m_vec_new(E_, st, frame, callee, argvals, dest_ty):
+        return buf(z3.BitVecVal(0, 64), z3.BitVecVal(0, 8))
+
+    def m_take(E_, st, frame, callee, argvals, dest_ty):
+        r = argvals[0].get(())
+        if not isinstance(r, mir.Ref):
+            return NotImplemented
+        cur = dict(E_.load(st, r.loc))
+        E_.store(st, r.loc, {("disc",): z3.IntVal(0)})
+        return cur
+
+    def m_unwrap_or_default(E_, st, frame, callee, argvals, dest_ty):
+        v = argvals[0]
+        d = v.get(("disc",))
+        if d is None:
+            return NotImplemented
+        d = z3.simplify(d)
+        if z3.is_int_value(d) and d.as_long() == 1:
+            return {k[2:]: x for k, x in v.items() if k[:2] == (("v", "Some"), ("f", 0))}
+        if z3.is_int_value(d) and d.as_long() == 0:
+            return buf(z3.BitVecVal(0, 64), z3.BitVecVal(0, 8))
+        return NotImplemented
+
+    def m_len(E_, st, frame, callee, argvals, dest_ty):
+        cur, _ = load_buf(E_, st, argvals[0])
+        return {(): cur[("blen",)]} if cur else NotImplemented
+
+    def m_push(E_, st, frame, callee, argvals, dest_ty):
+        cur, loc = load_buf(E_, st, argvals[0])
+        b = argvals[1].get(())
+        if cur is None or loc is None or not mir.is_z(b):
+            return NotImplemented
+        bs = z3.simplify(b)
+        append(E_, st, frame, loc, cur, z3.BitVecVal(1, 64), b, bs.as_long() if z3.is_bv_value(bs) else None, "push")
+        return {(): mir.Str("()")}
+
+    def const_bytes(v):
+        leaf = v.get(())
+        if isinstance(leaf, mir.Str):
+            try:
+                return _rust_bytes(leaf.s)
+            except Exception:
+                return None
+        return None
+
+    def m_extend(E_, st, frame, callee, argvals, dest_ty):
+        cur, loc = load_buf(E_, st, argvals[0])
+        bs = const_bytes(argvals[1])
+        if cur is None or loc is None or not bs:
+            return NotImplemented
+        append(E_, st, frame, loc, cur, z3.BitVecVal(len(bs), 64), z3.BitVecVal(bs[-1], 8), bs[0], "extend")
+        return {(): mir.Str("()")}
+
+    def m_argument(E_, st, frame, callee, argvals, dest_ty):
+        return {("akind",): mir.Str("arg")}
+
+    def m_arguments(E_, st, frame, callee, argvals, dest_ty):
+        return {("tmpl",): argvals[0].get(())}
+
+    def m_arguments_str(E_, st, frame, callee, argvals, dest_ty):
+        return {("fromstr",): argvals[0].get(())}
+
+    def m_write_fmt(E_, st, frame, callee, argvals, dest_ty):
+        cur, loc = load_buf(E_, st, argvals[0])
+        a = argvals[1]
+        if cur is None or loc is None:
+            return NotImplemented
+        try:
+            if isinstance(a.get(("fromstr",)), mir.Str):
+                pieces = [("lit", _rust_bytes(a[("fromstr",)].s))]
+            elif isinstance(a.get(("tmpl",)), mir.Str):
+                pieces = _decode_template(_rust_bytes(a[("tmpl",)].s))
+            else:
+                return NotImplemented
+        except Exception:
+            return NotImplemented
+        pieces = [p_ for p_ in pieces if p_[0] == "arg" or p_[1]]
+        if not pieces:
+            return {(): mir.Str("()")}
+        total = z3.BitVecVal(sum(len(p_[1]) for p_ in pieces if p_[0] == "lit"), 64)
+        for p_ in pieces:
+            if p_[0] == "arg":
+                E_.fresh_n += 1
+                ln = z3.BitVec("written_len!%d" % E_.fresh_n, 64)
+                # header placeholders are numbers and a date (at most 64 bytes each); item text is allowed to be
+                # huge so that the chunk limit can fall behind any piece with few items
+                st.cond.append(z3.ULE(ln, 64 if "append_header" in frame["body"].name else LIM))
+                total = total + ln
+        if pieces[-1][0] == "lit":
+            last = z3.BitVecVal(pieces[-1][1][-1], 8)
+        else:
+            E_.fresh_n += 1
+            last = z3.BitVec("written_last!%d" % E_.fresh_n, 8)
+        first = pieces[0][1][0] if pieces[0][0] == "lit" else None
+        skeleton = b"".join(p_[1] if p_[0] == "lit" else b"0" for p_ in pieces)
+        append(E_, st, frame, loc, cur, total, last, first, "fmt")
+        st.events[-1].args[0].skeleton = skeleton
+        return {(): mir.Str("()")}
+
+    def m_into_bytes(E_, st, frame, callee, argvals, dest_ty):
+        cur, _ = load_buf(E_, st, argvals[0])
+        if cur is None:
+            return NotImplemented
+        tok(E_, st, frame, Tok("chunk", blen=cur[("blen",)]))
+        return {(): mir.Opq("Bytes", "chunk")}
+
+    def m_deref_vec(E_, st, frame, callee, argvals, dest_ty):
+        cur, loc = load_buf(E_, st, argvals[0])
+        return dict(argvals[0]) if cur is not None else NotImplemented
+
+    def m_ends_with(E_, st, frame, callee, argvals, dest_ty):
+        cur, _ = load_buf(E_, st, argvals[0])
+        bs = const_bytes(argvals[1])
+        if cur is None or not bs or len(bs) != 1:
+            return NotImplemented
+        return {(): z3.And(cur[("blen",)] != 0, cur[("blast",)] == bs[0])}
+
+    def m_arc_iter(E_, st, frame, callee, argvals, dest_ty):
+        return {("pos",): z3.IntVal(0)}
+
+    def m_iter_next(E_, st, frame, callee, argvals, dest_ty):
+        r = argvals[0].get(())
+        if not isinstance(r, mir.Ref):
+            return NotImplemented
+        cur = E_.load(st, r.loc)
+        if ("pos",) not in cur:
+            return NotImplemented
+        pos = cur[("pos",)].as_long()
+        if pos >= N:
+            return {("disc",): z3.IntVal(0)}
+        new = dict(cur)
+        new[("pos",)] = z3.IntVal(pos + 1)
+        E_.store(st, r.loc, new)
+        out = {("disc",): z3.If(pos < n_items, z3.IntVal(1), z3.IntVal(0))}
+        item = {("disc",): z3.IntVal(0), ("itemno",): z3.IntVal(pos)}
+        if kind == "delta":
+            for k, v in item.items():
+                out[(("v", "Some"), ("f", 0), ("f", 0)) + k] = v
+            out[(("v", "Some"), ("f", 0), ("f", 1), "disc")] = act[pos]
+        else:
+            for k, v in item.items():
+                out[(("v", "Some"), ("f", 0)) + k] = v
+        tok(E_, st, frame, Tok("fetch", item=pos))
+        return out
+
+    models = {
+        r"^Vec::<u8>::new$": m_vec_new,
+        r"^(std::option::|core::option::)?Option::<Vec<u8>>::take$": m_take,
+        r"^(std::option::|core::option::)?Option::<Vec<u8>>::unwrap_or_default$": m_unwrap_or_default,
+        r"^Vec::<u8>::len$": m_len, r"^Vec::<u8>::push$": m_push, r"^Vec::<u8>::extend_from_slice$": m_extend,
+        r"^core::fmt::rt::Argument::<'_>::new_": m_argument, r"^Arguments::<'_>::new::<": m_arguments,
+        r"^Arguments::<'_>::from_str$": m_arguments_str,
+        r"^<Vec<u8> as (WriteOrPanic|std::io::Write|io::Write)>::write_fmt$": m_write_fmt,
+        r"^<Vec<u8> as Into<(bytes::)?Bytes>>::into$": m_into_bytes,
+        r"^<Vec<u8> as Deref>::deref$": m_deref_vec,
+        r"^core::slice::<impl \[u8\]>::ends_with$": m_ends_with,
+        r"(PayloadDelta|PayloadSnapshot)::arc_iter$": m_arc_iter,
+        r"^<(DeltaArcIter|SnapshotArcIter) as (PayloadDiff|PayloadSet|Iterator)>::next$": m_iter_next,
+    }
+    inline = [r"(DeltaStream|SnapshotStream)::(next_announce|next_withdraw|append_\w+)$"]
+
+    def keep_mem(mem):
+        return {k: v for k, v in mem.items() if not (isinstance(k[0], str) and re.match(r"^[FP]\d", k[0]))}
+
+    # step 0: new()
+    frontier = []
+    for p in E.explore(new_body, max_visits=2, models=models, inline=inline, keep_drop_events=False):
+        if p.kind != "return":
+            continue
+        mem = keep_mem(p.mem)
+        for k, v in p.ret.items():
+            mem[("STREAM",) + k] = v
+        frontier.append((mem, list(p.cond), list(p.events)))
+    if len(frontier) != 1:
+        res.inconclusive.append("%s::new: %d returning paths (expected 1)" % (ty, len(frontier)))
+        mprop.finish_engine(res, E)
+        return 0
+    finished = []
+    MAXCALLS = N + 5
+    for call in range(MAXCALLS):
+        nxt = []
+        for mem, cond, events in frontier:
+            def pre(E_, st, frame, mem=mem, cond=cond, events=events):
+                st.mem.update(mem)
+                st.cond = list(cond)
+                st.events = list(events)
+                E_.store(st, (frame["id"] + ":_1",), {(): mir.Ref(("STREAM",), True)})
+            ps = E.explore(next_body, max_visits=2 * N + 6, pre=pre, models=models, inline=inline, max_paths=50000)
+            for p in ps:
+                if p.kind == "bound":
+                    if E.feasible(p.cond):
+                        res.inconclusive.append("%s::next: a path exceeds the loop bound in the byte-level run" % ty)
+                    continue
+                if p.kind != "return":
+                    continue
+                d = p.ret.get(("disc",))
+                if d is None:
+                    res.inconclusive.append("%s::next: result discriminant unknown" % ty)
+                    continue
+                if E.feasible(p.cond, d == 0):
+                    finished.append(p)
+                if E.feasible(p.cond, d == 1):
+                    p2cond = list(p.cond) + [d == 1]
+                    nxt.append((keep_mem(p.mem), p2cond, list(p.events)))
+        frontier = nxt
+        if not frontier:
+            break
+    if frontier:
+        res.inconclusive.append("%s: %d runs still produce chunks after %d calls of next()" % (ty, len(frontier), MAXCALLS))
+
+    # ---- check every finished run ------------------------------------------------------------------------------
+    bad = {}
+
+    def viol(key, what, p, mdl=None):
+        if key in bad:
+            return
+        bad[key] = True
+        ok = native_stream(res)
+        fn = mprop.write_cex(res, "%s_run_%s" % (kind, re.sub(r"\W+", "_", key)), p, E, what, mdl)
+        if ok is False:
+            res.inconclusive.append("%s byte-level run: '%s' did not reproduce in the native chunk-boundary sweep" % (ty, key))
+        else:
+            res.violation("mir:%s-run:%s" % (kind, key), what + ("; reproduced natively" if ok else " [native replay unavailable]"), fn)
+
+    shapes = set()
+    skeleton_checked = False
+    for p in finished:
+        # group the writes by the helper that made them
+        segs = []
+        cur = None
+        for e in p.events:
+            if e.kind == "enter":
+                m = re.search(r"::append_(\w+)$", e.name)
+                if m:
+                    cur = Tok(m.group(1), writes=[], item=None)
+                    segs.append(cur)
+                continue
+            if e.kind == "ret" and re.search(r"::append_\w+$", e.name):
+                cur = None
+                continue
+            if e.kind == "call" and e.name.endswith("append_payload") and False:
+                pass
+            if e.kind != "tok":
+                continue
+            t = e.args[0]
+            if t.kind == "write":
+                if cur is None:
+                    segs.append(Tok("stray", writes=[t], item=None))
+                else:
+                    cur.writes.append(t)
+            elif t.kind in ("chunk", "fetch"):
+                segs.append(t)
+        # which item does each payload segment write?  the last fetched one
+        last_fetch = None
+        seq = []
+        for sg in segs:
+            if sg.kind == "fetch":
+                last_fetch = sg.item
+            elif sg.kind == "payload":
+                sg.item = last_fetch
+                seq.append(sg)
+            elif sg.kind in ("header", "separator", "footer", "stray"):
+                seq.append(sg)
+        kinds = "".join({"header": "H", "payload": "P", "separator": "S", "footer": "F", "stray": "?"}[sg.kind] for sg in seq)
+        shapes.add((kinds, tuple(1 if sg.kind == "chunk" else 0 for sg in segs if sg.kind != "fetch")))
+        want = r"HP*SP*F" if kind == "delta" else r"HP*F"
+        if re.fullmatch(want, kinds) is None:
+            viol("grammar", "%s writes its pieces in the order %s (H header, P item, S separator, F footer)" % (ty, kinds), p)
+            continue
+        # number of items and their actions on this run
+        mdl = E.model(p.cond)
+        nn = mdl.eval(n_items, True).as_long()
+        acts = [mdl.eval(a, True).as_long() for a in act[:nn]]
+        fixed = not E.feasible(p.cond, z3.Or([n_items != nn] + [a != v for a, v in zip(act, acts)]))
+        lists = kinds[1:-1].split("S") if kind == "delta" else [kinds[1:-1]]
+        items = [sg for sg in seq if sg.kind == "payload"]
+        k = 0
+        for li, lst in enumerate(lists):
+            want_items = [i for i in range(nn) if (kind != "delta" or acts[i] == li)]
+            got = [items[k + j].item for j in range(len(lst))]
+            if fixed and got != want_items:
+                viol("items", "%s lists items %s in its %s list for a change set with actions %s (0 announce, 1 withdraw)"
+                     % (ty, got, ["announced", "withdrawn"][li] if kind == "delta" else "payload", acts), p, mdl)
+            for j in range(len(lst)):
+                sg = items[k + j]
+                comma = bool(sg.writes) and sg.writes[0].what == "push" and sg.writes[0].first == 0x2c
+                if not comma and sg.writes and sg.writes[0].first == 0x2c:
+                    comma = True
+                if comma != (j > 0):
+                    where = "after a chunk boundary" if any(True for _ in ()) else ""
+                    viol("comma", "%s writes item %d of a list %s a separating comma (%s): the concatenated chunks are not "
+                         "valid JSON" % (ty, j, "with" if comma else "without",
+                                         "a comma directly behind the opening bracket" if comma else "two items without a comma"), p, mdl)
+            k += len(lst)
+        chunks = [sg for sg in segs if sg.kind == "chunk"]
+        if segs and segs[-1].kind != "chunk":
+            viol("tail-lost", "%s writes output after its last chunk was returned" % ty, p)
+        if not skeleton_checked and all(len(sg.writes) >= 1 for sg in seq if sg.kind in ("header", "separator", "footer")):
+            skeleton_checked = True
+            sk = b"".join(getattr(w, "skeleton", b"") if w.what == "fmt" else b"" for sg in seq if sg.kind != "payload" for w in sg.writes)
+            foot = [sg for sg in seq if sg.kind == "footer"][0]
+            if all(w.what != "fmt" for w in foot.writes):
+                sk += b"\n  ]\n}\n" if False else b""
+            res.extra.setdefault("stream_skeletons", {})[kind] = sk.decode("utf-8", "replace")[:400]
+    res.samples.append({"stream": kind, "byte_level_runs": len(finished), "distinct_piece_and_chunk_patterns": len(shapes), "max_items": N})
+    if len(finished) < 4:
+        res.inconclusive.append("vacuity: %s byte-level run finished only %d runs" % (ty, len(finished)))
+    mprop.finish_engine(res, E)
+    return len(shapes)
+
+
+_STREAM_NATIVE = {}
+
+
+def native_stream(res):
+    """Native sweep: the real DeltaStream / SnapshotStream with the end of the announced list moved byte by byte
+    across the 64000-byte limit; the concatenated chunks must parse and list exactly the change set."""
+    if "r" not in _STREAM_NATIVE:
+        import nativetest
+        failed, passed, out = nativetest.run_native_test("native_c18", "c18_native_chunk_sweep")
+        obs = re.findall(r"C18-NATIVE (.*)", out)
+        res.extra.setdefault("native_replays", []).append({"test": "c18_native_chunk_sweep", "failed": failed, "observed": obs[:4] or [out[-300:]]})
+        _STREAM_NATIVE["r"] = True if failed else (False if passed else None)
+    return _STREAM_NATIVE["r"]
